@@ -202,6 +202,29 @@ fn main() {
     println(WORD, LIST, OBJ.x, OBJ.y, HALF, REM);
 }
 `},
+		{"small:returns-before-the-end", `fn early(n: int) -> int {
+    if n > 2 { return n * 2; }
+    for i in 0..5 { if i == n { return i + 10; } }
+    0 - 1
+}
+fn done(n: int) {
+    if n > 1 { println("big"); return; }
+    println("small");
+}
+fn main() {
+    println(early(5), early(1), early(0 - 3));
+    done(1);
+    done(2);
+}
+`},
+		{"small:return-as-last-statement", `fn last(n: int) -> int {
+    if n > 2 { return n * 2; }
+    return 0 - 1;
+}
+fn main() {
+    println(last(5), last(1));
+}
+`},
 		{"small:comparisons-in-every-position", `fn le(a: int, b: int) -> bool { a * 2 <= b * 3 }
 fn main() {
     let a = 2;
@@ -364,6 +387,9 @@ func c20Run(tier string, idx int, r *Result) {
 
 func init() {
 	register("C20", func() *Check {
-		return &Check{ID: "C20", Scenarios: []Scenario{{Name: "transformer-draw-sequences", Count: func(string) int { return (len(c20Inputs) + len(c20Examples)) * 3 }, Run: c20Run}}}
+		return &Check{ID: "C20", Scenarios: []Scenario{
+			{Name: "transformer-draw-sequences", Count: func(string) int { return (len(c20Inputs) + len(c20Examples)) * 3 }, Run: c20Run},
+			{Name: "pass-by-pass-closure", Count: func(string) int { return len(c20Tiny) }, Run: c20Closure},
+		}}
 	})
 }
